@@ -1,3 +1,4 @@
+import Cactus.Lemmas.Final
 import Cactus.Lemmas.Basic
 /-!
 # C05 — Weak handles observe destruction exactly
@@ -54,5 +55,46 @@ theorem C05_weakDrop (s : State) (o : Nat) (ob : Obj) (hc : s.cell o = some ob) 
 
 /-- non-vacuity -/
 example : nthMod ({ wroots := [0] } : State).wroots 5 = some 0 := by decide
+
+
+/-! ## Over whole histories (no hypothesis on the history) -/
+
+/-- **C05 (allocation validity).** While any Weak handle to an object exists — held by the program,
+stored inside a value, or owned by a pending teardown frame — its allocation has not been released,
+whatever happened to its value (plain drop, zero count with adoptions, member of a collected group,
+`try_unwrap`, `make_mut`, interrupted by a panic). -/
+theorem C05_weak_keeps_allocation {s : State} (h : Reachable s) (he : s.err = none) {t : Nat}
+    (hw : 0 < s.extW t + s.inHeapW t + s.pendW t) : (s.cell t).isSome = true := by
+  obtain ⟨⟨hO, _, _, hW, _⟩, hR⟩ := reachable_core h he
+  have hlt : t < s.heap.length := by
+    by_cases hlt : t < s.heap.length
+    · exact hlt
+    · have := (hR t (by omega)).2; omega
+  have hweak := hW t hlt
+  obtain ⟨ob, hg⟩ : ∃ ob, s.heap[t]? = some ob := ⟨s.heap[t], List.getElem?_eq_getElem hlt⟩
+  have hfz := (hO t ob hg).2.2.2
+  have hwn : s.weakNat t = ob.weak := by simp [State.weakNat, hg]
+  have : ob.freed = false := by
+    cases hf : ob.freed with
+    | false => rfl
+    | true => have := hfz.mp hf; omega
+  simp [State.cell, hg, this]
+
+/-- **C05 (exactness).** For an allocated object, "the value has not been destroyed" (it is still in
+place) is equivalent to "the strong count is positive", which is exactly the test `upgrade`
+performs; so `upgrade` succeeds iff the value has not been destroyed, in every reachable state —
+including states in the middle of a group teardown, where all members have already been marked
+dead before any member's destructor runs. -/
+theorem C05_value_present_iff_not_dead {s : State} (h : Reachable s) (he : s.err = none) {o : Nat} {ob : Obj}
+    (hc : s.cell o = some ob) : ob.value.isSome = true ↔ ob.strong.isDead = false := by
+  have hO := (reachable_core h he).1.1
+  have hg := (cell_some_get s o ob hc).1
+  have := hO o ob hg
+  cases hs : ob.strong with
+  | uninit => simp [Strong.isDead, (this.2.2.1 hs).1]
+  | cnt n =>
+    cases n with
+    | zero => simp [Strong.isDead, (this.2.1 hs).1]
+    | succ n => simp [Strong.isDead, (this.1 n hs).1]
 
 end Cactus
